@@ -576,10 +576,11 @@ func runCheck(r *propRun) int {
 		emit(r.prop+"/"+strings.SplitN(fe, ":", 2)[0]+"/generate", "function under contract cannot be verified: "+fe, nil)
 	}
 	var boundedEv []map[string]interface{}
-	nBoundedBad := 0
+	nBoundedBad, boundedCases := 0, 0
 	for _, ch := range boundedCh {
 		b := <-ch
 		boundedEv = append(boundedEv, b.evidence())
+		boundedCases += b.Cases
 		name := r.prop + "/bounded/" + b.C.Name
 		fmt.Printf("  bounded    %-8s %6.1fs %s: %d cases (%d non-trivial), %s [%s]\n", b.Status, b.Secs, name, b.Cases, b.Nontrivial, b.C.Bound, b.C.Function)
 		if b.Status == "held" {
@@ -704,6 +705,7 @@ func runCheck(r *propRun) int {
 			"nopanic_sweep_armed":      len(sweepArmed),
 			"nopanic_sweep_notes":      sweepNotes,
 			"bounded":                  boundedEv,
+			"bounded_cases_total":      boundedCases,
 		},
 		"assumptions": assumptions,
 		"wall_s":      round3(time.Since(t0).Seconds()),
